@@ -638,7 +638,9 @@ impl<K, V, S> Inner<K, V, S> {
 
     #[inline]
     fn set_valid_after(&self, timestamp: Instant) {
-        self.valid_after.set_instant(timestamp);
+        // Concurrent invalidate_all calls can get here in another order than that of
+        // their clock readings: never move the watermark backwards.
+        self.valid_after.advance_to(timestamp);
     }
 
     #[inline]
